@@ -241,7 +241,7 @@ fn run_float<T: Cam>(ctx: &Ctx, conds: &[CondSpec], cols: &[Colour], ax: &Axes, 
             if enabled[i] {
                 let s = format!("{name}/{}", T::NAME);
                 total.add(&s, 0, 0, l.traces[i], 0);
-                total.exhaustive(&s, true, bound_text([Sub::Roundtrip, Sub::Black, Sub::PartialEq, Sub::Baked, Sub::IntoFull, Sub::Interconvert, Sub::Forward, Sub::Ucs, Sub::WhiteJ][i]));
+                total.exhaustive(&s, true, &format!("evaluated on the states counted under space/{}: {}", T::NAME, bound_text([Sub::Roundtrip, Sub::Black, Sub::PartialEq, Sub::Baked, Sub::IntoFull, Sub::Interconvert, Sub::Forward, Sub::Ucs, Sub::WhiteJ][i])));
             }
         }
         if !l.fail_conds.is_empty() {
